@@ -262,9 +262,46 @@ def map_get(ip, m: VMap, key: V) -> V:
 def map_getitem(ip, m: VMap, key: V):
     st = ip.st
     indom = z3.Select(st.heap[(m.ref, "dom")], kterm(ip, key))
+    if getattr(m, "default", False) and not ip.spec_mode:
+        # defaultdict: a missing key is inserted with an empty collection
+        if not st.branch(indom):
+            from .tys import elem_type
+            st.heap[(m.ref, "dom")] = z3.Store(st.heap[(m.ref, "dom")], kterm(ip, key), z3.BoolVal(True))
+            if m.val[0] == "set":
+                empty = z3.K(sort_of_type(elem_type(m.val[1])), z3.BoolVal(False))
+            elif m.val[0] == "seq":
+                empty = z3.Empty(z3.SeqSort(sort_of_type(elem_type(m.val[1]))))
+            else:
+                raise Unsupported("defaultdict with a scalar factory")
+            st.heap[(m.ref, "val")] = z3.Store(st.heap[(m.ref, "val")], kterm(ip, key), empty)
+        return map_get(ip, m, key)
     if not ip.spec_mode and not st.branch(indom):
         raise_("KeyError")
     return map_get(ip, m, key)
+
+
+def m_update(ip, args, kwargs, node):
+    """d.update(other) for two symbolic maps: other's entries override"""
+    m, o = args[0], args[1]
+    if not isinstance(o, VMap):
+        raise Unsupported("dict.update with a non-map argument")
+    st = ip.st
+    k = z3.Const(st.fresh_name("k"), sort_of_type(m.key))
+    d1, v1 = st.heap[(m.ref, "dom")], st.heap[(m.ref, "val")]
+    d2, v2 = st.heap[(o.ref, "dom")], st.heap[(o.ref, "val")]
+    st.heap[(m.ref, "dom")] = z3.Lambda([k], z3.Or(z3.Select(d1, k), z3.Select(d2, k)))
+    st.heap[(m.ref, "val")] = z3.Lambda([k], z3.If(z3.Select(d2, k), z3.Select(v2, k), z3.Select(v1, k)))
+    return VNone
+
+
+def set_update(ip, args, kwargs, node):
+    s, o = args[0], args[1]
+    if not isinstance(o, VSet):
+        raise Unsupported("set.update with a non-set argument")
+    k = z3.Const(ip.st.fresh_name("k"), sort_of_type(s.elem))
+    a, b = ip.st.heap[(s.ref, "set")], ip.st.heap[(o.ref, "set")]
+    ip.st.heap[(s.ref, "set")] = z3.Lambda([k], z3.Or(z3.Select(a, k), z3.Select(b, k)))
+    return VNone
 
 
 def map_setitem(ip, m: VMap, key: V, v: V):
@@ -291,6 +328,20 @@ def coerce(ip, v: V, t):
             return tok
     if isinstance(v, VOpt):
         v = ip.unopt(v)
+    if t[0] in ("obj", "symobj") and isinstance(v, VObj) and not v.symbolic:
+        # a heap object stored into a collection of immutable objects: a symbolic twin with equal first-order fields
+        twin = VObj(t[1], ip.st.fresh("stored_" + t[1].split("@")[0], obj_sort(t[1])))
+        for f, ft in ip.tenv.fields_of(t[1]).items():
+            if ft[0] in ("map", "seq", "set", "hmap", "clist", "cdict"):
+                continue
+            try:
+                e = ip.eq(ip.get_field(twin, f), ip.get_field(v, f))
+                if e is False:
+                    raise Unsupported("not comparable")
+                ip.st.assume(_b(e))
+            except (Unsupported, KeyError, TypeError):
+                ip.st.notes.append(f"field {t[1]}.{f} not carried into the collection element")
+        return twin.ref
     return term_of(v)
 
 
@@ -629,6 +680,8 @@ def install(lib):  # noqa: F811
     for n, f in (("put_nowait", q_put_nowait), ("get_nowait", q_get_nowait), ("qsize", q_qsize), ("empty", q_empty)):
         meth[("seq", n)] = VBuiltin("Queue." + n, f)
     meth[("map", "setdefault")] = VBuiltin("dict.setdefault", m_setdefault)
+    meth[("map", "update")] = VBuiltin("dict.update", m_update)
+    meth[("set", "update")] = VBuiltin("set.update", set_update)
     meth[("map", "pop")] = VBuiltin("dict.pop", m_pop_any)
     meth[("hmap", "pop")] = VBuiltin("dict.pop", hmap_pop)
     lib["__getitem__"]["hmap"] = hmap_getitem
